@@ -4,7 +4,7 @@ from common_cfg import COMMON_TRUSTED
 CFG = dict(
     harness="c02",
     translators=["tr-ops"],
-    model_targets=["Num/Cases.vo", "Num/ConstRound.vo"],
+    model_targets=["Num/Cases.vo", "Num/ConstRound.vo", "Num/FloatCases.vo"],
     proof_targets=["Props/C02.vo"],
     props="Props/C02.v",
     harness_timeout=3000,
